@@ -343,3 +343,53 @@ var verifC20EncodedLayouts = []verifC20Layout{
 func VerifC20_encoded_hex()      { verifC20Run(&verifC20EncodedLayouts[0]) }
 func VerifC20_encoded_base64()   { verifC20Run(&verifC20EncodedLayouts[1]) }
 func VerifC20_encoded_topicHex() { verifC20Run(&verifC20EncodedLayouts[2]) }
+
+// Sized fields longer than the reader's 64 KiB read chunk: the reader accumulates such a field
+// in several reads. Two records whose value length is one of {65535, 65536, 65537, 70000,
+// 131072, 131073} (concrete pattern bytes; 4-byte big-endian size), a 1-byte key after it so
+// that an over-read of the value is visible in the NEXT field, read back through ReadRecord.
+func VerifC20_chunkedLargeField() {
+	verifUnwind(300000) // byte loops over two values of up to 131073 bytes
+	n := []int{65535, 65536, 65537, 70000, 131072, 131073}[verifChoose(6)]
+	layout := "%V{big32}%v%K{byte}%k"
+	f, err := NewRecordFormatter(layout)
+	verifAssert(err == nil, "layout compiles as a formatter")
+	if err != nil {
+		return
+	}
+	var stream []byte
+	var want []*Record
+	for i := 0; i < 2; i++ {
+		v := make([]byte, n)
+		for j := range v {
+			v[j] = byte(j*7 + i)
+		}
+		r := &Record{Value: v, Key: []byte{byte(0xA0 + i)}}
+		want = append(want, r)
+		stream = f.AppendRecord(stream, r)
+	}
+	rd, err := NewRecordReader(bytes.NewReader(stream), layout)
+	verifAssert(err == nil, "layout compiles as a reader")
+	if err != nil {
+		return
+	}
+	for _, w := range want {
+		got, err := rd.ReadRecord()
+		verifAssert(err == nil, "a written record reads back without error")
+		if err != nil {
+			return
+		}
+		verifAssert(len(got.Value) == len(w.Value) && len(got.Key) == 1, "a field longer than the read chunk reads back with its length, and the next field starts right after it")
+		if len(got.Value) != len(w.Value) || len(got.Key) != 1 {
+			return
+		}
+		same := got.Key[0] == w.Key[0]
+		for j := range w.Value {
+			same = same && got.Value[j] == w.Value[j]
+		}
+		verifAssert(same, "a field longer than the read chunk reads back byte for byte")
+	}
+	_, err = rd.ReadRecord()
+	verifAssert(err == io.EOF, "io.EOF exactly at the end of the stream")
+	verifReached("c20-large-field")
+}
